@@ -147,7 +147,7 @@ Print Assumptions C07_panic_sites_agree.
 
 (* ---- non-vacuity: concrete members of the language exercising rules, list rules, wrappers *)
 Example C07_example :
-  let p := mkProp false (Array (Some (TInteger I64 (Some (mkIR true true (Some true) None)) true)) (Some true) true) true false in
+  let p := mkProp false (Array (Some (TInteger I64 (Some (mkIR true true (Some true) None false)) true)) (Some true) true) true false in
   in_language p = true /\ uses_float_rules p = false /\ uses_informal_key_listrules p = false
   /\ compile_iso p = mkObs VOk [IJ5Ext; IBufValidate; IJ5List] [XField; XValidate; XList]
                            (Some (mkDesc PInt64 NNone true false)).
